@@ -132,6 +132,17 @@ CHECKS['C16'] = dict(cat='other', engine='symnp',
          'real. (3) slice_to_bound (AST-extracted): bounds describe exactly range(size)[slice].', ref='5/C16',
     note=NOTE_SYM + '; dask branch and selections on pixel attributes outside the claim; links are affine functions given as closures')
 
+CHECKS['C11'] = dict(cat='other', engine='symnp',
+    technique='symbolic execution of the key-join fallback on symbolic key columns and selections + SMT equivalence with membership-by-value',
+    text='Single-key shapes 1-1, 1-n, n-1: key columns are symbolic extended reals (NaN included), the selection on the other '
+         'dataset is an arbitrary symbolic mask; both directions, several views; z3 proves a row is selected iff its key equals by '
+         'value the key of a selected row. Tuple-of-keys shape: the real byte-level concatenate_arrays runs on solver-enumerated '
+         'key columns (int64, float64, strings) with a solver-forked selection. Chains of 2-3 (thorough 4) datasets: the selection '
+         'is propagated join by join; cycles and unanswerable selections terminate with IncompatibleAttribute, the recursion '
+         'guard is released, and a failed request does not disturb the next one.', ref='5/C11',
+    note=NOTE_SYM + '; tuple-shape key columns have the same dtype on both sides (mixed dtypes: recorded finding '
+         'C11/tuple-keys-bytewise); in cyclic join graphs only termination is claimed (two routes exist)')
+
 NOT_YET = {}
 
 NOT_APPLICABLE = {
